@@ -49,4 +49,25 @@ theorem run_readProg (T : TextOracle) (opts : Opts) (fuel : Nat) (x : Bytes) (hf
     (readProg T opts fuel).run x = readP T opts x :=
   _root_.Peppi.Prog.run_readProg T opts fuel x hf
 
+/- from `Peppi.Lemmas.NoPanic` -/
+open Extracted in
+theorem parseStart_safe (T : TextOracle) : Rd.Safe (fun ps => StInv ps.st) (parseStart T) :=
+  _root_.Peppi.parseStart_safe T
+
+/- from `Peppi.Lemmas.NoPanic` -/
+open Extracted in
+theorem parseEvent_safe (ps : ParseState) (hinv : StInv ps.st) :
+    Rd.Safe (fun r => StInv r.2.st) (parseEvent ps) :=
+  _root_.Peppi.parseEvent_safe ps hinv
+
+/- from `Peppi.Lemmas.NoPanic` -/
+open Extracted in
+theorem parseMetadata_noPanic (utf8 st) : Rd.NoPanic (parseMetadata utf8 st) :=
+  _root_.Peppi.parseMetadata_noPanic utf8 st
+
+/- from `Peppi.Lemmas.NoPanic` -/
+open Extracted in
+theorem readMap_noPanic (utf8 : Bytes → Bool) (bs : Bytes) : Res.NoPanic (readMap utf8 bs) :=
+  _root_.Peppi.readMap_noPanic utf8 bs
+
 end Peppi.Props.C06
